@@ -581,11 +581,20 @@ def minimise(doc, execute, finding_key, budget_s=60):
     last = {}
 
     def fails(plan, schedule):
-        res = execute(plan, schedule)
-        if res.get('harness'):
+        # every candidate is executed in a freshly forked child (pristine library state)
+        from simkit import runner
+
+        def run():
+            res = execute(plan, schedule)
+            if res.get('harness'):
+                return None
+            return [(finding_key({'violation': v}), v) for v in res['violations']]
+        try:
+            out = runner.fork_call(run, timeout=300)
+        except runner.ForkError:
             return False
-        for v in res['violations']:
-            if finding_key({'violation': v}) == want:
+        for k, v in out or []:
+            if k == want:
                 last['v'] = v
                 return True
         return False
